@@ -1228,7 +1228,7 @@ pub fn run(ctx: &mut Ctx) {
         }
     };
     run_witness(ctx, &lib);
-    let total = ctx.n(20_000, 40_000_000);
+    let total = ctx.n(100_000, 40_000_000);
     for case in ctx.cases(total) {
         if ctx.out_of_budget() {
             ctx.count("budget-stop");
